@@ -14,7 +14,6 @@ package sweep
 import (
 	"errors"
 	"fmt"
-	"os"
 	"sync"
 	"testing"
 
@@ -386,30 +385,43 @@ func c18DrawReq(t *rapid.T, name string, serial *int, height int32,
 	default:
 		lockMode = 2
 	}
+	// tight: second-level HTLC inputs (value pinned to their required
+	// outputs) plus one wallet top-up that barely pays the fee, so that
+	// the change output is around the dust limit as the fee ramps.
+	tight := rapid.IntRange(0, 6).Draw(t, "tight") == 0
+	if tight {
+		n = rapid.IntRange(1, 3).Draw(t, "nTight")
+		lockMode = 0
+	}
 	for i := 0; i < n; i++ {
 		m := c18DrawInput(t, height, true, lockMode, sharedLock)
+		if tight {
+			m = &c18Input{
+				kind: c18Kinds[len(c18Kinds)-2], hasLock: true,
+				lockTime: sharedLock, reqPk: c18P2WSH.pk,
+				value: rapid.Int64Range(330, 100_000).Draw(
+					t, "tightValue"),
+			}
+			m.reqValue = m.value
+		}
 		if m.kind.reqOut && m.reqValue < c18DustLimit(m.reqPk) {
 			// The aggregator never passes dust required outputs.
 			m.value += 400
 			m.reqValue = m.value
 		}
-		*serial++
-		c18BuildInput(m, *serial)
 		r.ins = append(r.ins, m)
+	}
+	var topUp *c18Input
+	if tight {
+		topUp = &c18Input{kind: c18Kinds[rapid.IntRange(0, 2).Draw(
+			t, "tightWallet")]}
+		r.ins = append(r.ins, topUp)
 	}
 
 	var err error
 	r.weight, err = c18Weight(r.ins, r.change.pk)
 	if err != nil {
 		t.Fatalf("weight: %v", err)
-	}
-	r.values = make(map[wire.OutPoint]int64)
-	for _, m := range r.ins {
-		r.sumIn += m.value
-		r.values[m.op] = m.value
-		if m.kind.reqOut {
-			r.sumReq += m.reqValue
-		}
 	}
 
 	// Max fee rate: the configurable range is 100..10000 sat/vb.
@@ -441,7 +453,27 @@ func c18DrawReq(t *rapid.T, name string, serial *int, height int32,
 	if r.budget < 1 {
 		r.budget = 1
 	}
-	if rapid.IntRange(0, 7).Draw(t, "budgetVsValue") == 0 {
+	if topUp != nil {
+		hi := c18Max(relay, c18Min(r.maxRate, c18BudgetRateFloor(
+			r.budget, r.weight)))
+		topUp.value = c18FeeAt(rapid.Int64Range(relay, hi).Draw(
+			t, "tightRate"), r.weight) +
+			rapid.Int64Range(0, 800).Draw(t, "tightSlack")
+		if topUp.value < 1 {
+			topUp.value = 1
+		}
+	}
+	r.values = make(map[wire.OutPoint]int64)
+	for _, m := range r.ins {
+		*serial++
+		c18BuildInput(m, *serial)
+		r.sumIn += m.value
+		r.values[m.op] = m.value
+		if m.kind.reqOut {
+			r.sumReq += m.reqValue
+		}
+	}
+	if rapid.IntRange(0, 7).Draw(t, "budgetVsValue") == 0 && topUp == nil {
 		// Around what the inputs can pay at all.
 		spend := r.sumIn - r.sumReq
 		r.budget = c18Max(1, spend+rapid.Int64Range(-700, 700).Draw(
@@ -957,12 +989,6 @@ func TestVerifC18Publisher(t *testing.T) {
 			}
 			if r.lastErr != nil {
 				labels = append(labels, "err:"+c18ErrClass(r.lastErr))
-				if os.Getenv("VERIF_C18_DEBUG") != "" &&
-					c18ErrClass(r.lastErr) == "zero_delta" {
-
-					labels = append(labels, fmt.Sprintf(
-						"zd:start=%v,est=%s", r.hasStart, estKind))
-				}
 			}
 			if len(r.pubs) > 1 {
 				labels = append(labels, "replaced>=1")
@@ -1083,10 +1109,6 @@ func c18ErrClass(err error) string {
 
 		return "wallet_fee_reject"
 	default:
-		if os.Getenv("VERIF_C18_DEBUG") != "" {
-			fmt.Fprintf(os.Stderr, "c18 other error: %v\n", err)
-		}
-
 		return "other"
 	}
 }
